@@ -965,4 +965,39 @@ def r3t(F):
 
 from . import c10 as _c10
 
-RULES = [r1, r1h, r2, r3, r3s, r3t, r4, r84, r85, _c10.r31]
+
+def r2e(F):
+    r = RuleResult("R2e", "`==` on tuples compares the number of fields",
+                   "the equality the VM's Equal / NotEqual opcodes use (PartialEq for opcode::Value): the Tuple arm compares the two "
+                   "lengths before (or instead of) looking each field of one side up in the other - a one-directional lookup alone makes "
+                   "a tuple equal to every tuple that has its fields and more, and `{}` equal to every tuple", floor=1)
+    name = "<ucglib::build::opcode::Value as core::cmp::PartialEq>::eq"
+    need(name in F.fns, "PartialEq for opcode::Value not found")
+    fn = F.fn(name, flat=False)
+    o = Origins(fn)
+    COMP = "ucglib::build::opcode::Composite"
+    arms_ = TR.arms(fn, COMP).get("Tuple")
+    need(arms_, "Value::eq has no Tuple arm")
+    # the arm for (Tuple, Tuple): dominated by the later of the two nested tests
+    # (self is Tuple) -> test of `other` -> (other is Tuple): the entry whose switch is itself the target of a Tuple edge
+    firsts = {e for sb, e in arms_}
+    inner = [e for sb, e in arms_ if sb in firsts and e != sb]
+    need(inner, "Value::eq: the (Tuple, Tuple) arm was not identified")
+    arm = {b for b in range(len(fn.blocks)) if not fn.is_cleanup(b) and cfg.dominates(fn, inner[0], b)}
+    cmps = []
+    for b, j, pl, rv, m in fn.assigns():
+        if b in arm and rv["k"] == "bin" and rv["op"] in ("Eq", "Ne") and rv.get("ty") == "usize":
+            if all(any(c.endswith("::len") for c in results_in(o.at(x, b))) for x in rv["ops"]):
+                cmps.append(b)
+    whole = [b for b, t in fn.calls() if b in arm and callee(t).split("::")[-1] in ("eq", "ne") and
+             "alloc::vec::Vec" in fn.local_ty(op_local(t["args"][0]) or 0)]
+    # both directions looked up is as good as a length test when names are unique - not assumed here: refuse rather than guess
+    walks = [b for b, t in fn.calls() if b in arm and callee(t).split("::")[-1] in ("iter", "into_iter", "all", "any")]
+    ok = bool(whole) or (bool(cmps) and all(any(cfg.dominates(fn, c, w) for c in cmps) for w in walks))
+    r.inst("Value::eq:Tuple:lengths", fn.where(min(arm)), ok,
+           "the lengths are compared before the fields are looked up" if ok else
+           "the Tuple arm of Value::eq looks the fields of the left side up in the right side without comparing the lengths: "
+           "`{a = 1} == {a = 1, b = 2}` is true (and `!=` false)")
+    return r
+
+RULES = [r1, r1h, r2, r2e, r3, r3s, r3t, r4, r84, r85, _c10.r31]
